@@ -5,7 +5,7 @@ import ScryerModel.Drv.TermIO
 drv_C07: `run <id> <clauses joined by " ;; "> <goal> <template> <max answers>`
   clauses / goal / template are terms in the harness' canonical syntax (Drv/TermIO); a clause is
   `':-'(Head,Body)` or a fact.
-Result: `R <fuel> <#answers> :: <answer> ;; <answer> ;; exception(<ball>)` (at most <max> answers,
+Result: `R <fuel> <#answers> :: <answer> ;; <answer> ;; exception(<ball>)` (at most <max> items,
 then `...`), each answer being the template resolved under the answer substitution; or
 `oof <fuel> <ms>` when the model did not finish within the fuel schedule / time guard.
 The model (`Scryer.Solve.solve`) is run with increasing fuel; by the fuel-monotonicity theorem
@@ -27,16 +27,14 @@ def parseProg (s : String) : Option Prog :=
 def bigFuel : Nat := 100000
 
 def showAnswers (tmpl : Term) (maxA : Nat) (r : Res) : String :=
-  let shown := (r.sols.take maxA).map fun s =>
+  let shown := r.sols.map fun s =>
     match resolve bigFuel s.σ tmpl with
     | some t => showTerm t
     | none => "?unresolved"
-  let tail :=
-    if r.sols.length > maxA then ["..."]
-    else match r.exc with
+  let items := shown ++ (match r.exc with
       | some (b, _) => ["exception(" ++ showTerm b ++ ")"]
-      | none => []
-  " ;; ".intercalate (shown ++ tail)
+      | none => [])
+  " ;; ".intercalate (items.take maxA ++ (if items.length > maxA then ["..."] else []))
 
 def fuels : List Nat := [24, 48, 96, 192, 384]
 
